@@ -63,6 +63,16 @@ def cases(rng, tier, feats, drv_ok):
         elif shape == 'dense': Q = sorted({rng.below(N) for _ in range(min(N, 24))})
         else: Q = sorted({rng.below(N) for _ in range(3)})
         nf = rng.choice([0, L // 2, L, 100])
+        # SPECIAL VALUES at queried positions: a polynomial that VANISHES at a queried point (value exactly 0 there), so that code treating
+        # 0 as "no value" is exercised: P(x) = (x - x_q) * R(x), x_q = 3 * w^bitrev_L(q)
+        if bound >= 2 and rng.chance(1, 4):
+            w = pow(3, (P - 1) >> L, P); q = rng.choice(Q)
+            xq = 3 * pow(w, int(format(q, f'0{L}b')[::-1], 2) if L else 0, P) % P
+            R = [rng.felt() for _ in range(rng.choice([1, bound // 2, bound - 1]) or 1)]
+            cs = [0] * (len(R) + 1)
+            for i, r in enumerate(R):
+                cs[i + 1] = (cs[i + 1] + r) % P; cs[i] = (cs[i] - xq * r) % P
+            shape += '+vanishing'
         specs.append((nf, steps, last, lnc, cs, Q, rng.felt(), rng.choice([0, 1, 7]), shape))
     built = F.build(feats, [s[:8] for s in specs])
     for s, toks in zip(specs, built):
